@@ -730,6 +730,12 @@ func c05Case(c *mon.Case, state, retry, concurrent bool) {
 			}
 			enterCall()
 			ctxMu.Lock()
+			if len(cx.all) >= 2 && rr.IntN(6) == 0 {
+				// the owner of a context the container no longer uses cancels it: nothing to do with the container any more
+				c.Rec(actor, "cancel a context that was replaced earlier", nil)
+				c.Count("replaced_context_cancelled", 1)
+				cx.all[rr.IntN(len(cx.all)-1)]()
+			}
 			switch k := rr.IntN(10); {
 			case k < 5:
 				ctx, tag := cx.fresh()
